@@ -122,8 +122,10 @@ def _ref_lookup(stack, name):
         return "missing"
 
 
-def _ops_ok(ops) -> bool:
-    """ops: list of (kind, theme, inherit).  kind: 0 push, 1 pop, 2 use_theme block, 3 use_theme block that raises."""
+def _ops_ok(ops, reuse_contexts=False) -> bool:
+    """ops: list of (kind, theme, inherit).  kind: 0 push, 1 pop, 2 use_theme block, 3 use_theme block that raises.
+    reuse_contexts: the object returned by use_theme(theme, inherit) is kept and entered again by later blocks."""
+    ctxs = {}
     console = Console(file=io.StringIO(), theme=Theme(dict(_BASE), inherit=False), width=40)
     stack = [dict(_BASE)]
 
@@ -151,8 +153,11 @@ def _ops_ok(ops) -> bool:
         else:
             before = [_lookup(console, n) for n in _LOOKUPS]
             inside = {**stack[-1], **_THEMES[ti]} if inherit else dict(_THEMES[ti])
+            ctx = ctxs.get((ti, inherit)) if reuse_contexts else None
+            if ctx is None:
+                ctx = ctxs[(ti, inherit)] = console.use_theme(theme, inherit=inherit)
             try:
-                with console.use_theme(theme, inherit=inherit):
+                with ctx:
                     if not all(_lookup(console, n) == _ref_lookup([inside], n) for n in _LOOKUPS):
                         return False
                     if kind == 3:
@@ -174,12 +179,13 @@ def _mk_console(nops, tiers, timeout):
     @xh("C20-console-%dops" % nops, pre=pre, tiers=tiers, timeout=timeout, kind="P", functions=F_CON,
         bounds="real Console with a non-inheriting base theme; every sequence of %d operations from {push(inherit?), pop, "
                "use_theme(inherit?) block, use_theme block exited by exception} x 3 themes with overlapping names "
-               "(solver-enumerated, executed natively); lookups of 3 names, a style definition and a non-style after every step"
+               "(solver-enumerated, executed natively), once with a fresh use_theme() object per block and once re-entering the "
+               "object an earlier block obtained; lookups of 3 names, a style definition and a non-style after every step"
                % nops)
     def h(k0: int, k1: int, k2: int) -> bool:
         ks = [pin(k0, 0, 23), pin(k1, 0, 23)] + ([pin(k2, 0, 23)] if nops >= 3 else [])
         ops = [(k // 6, (k // 2) % 3, bool(k % 2)) for k in ks]
-        return native(_ops_ok, ops)
+        return native(_ops_ok, ops) and native(_ops_ok, ops, True)
     return h
 
 
@@ -206,7 +212,12 @@ def _cfg_ok(i, vi, c, b, link) -> bool:
     styles = {"my.style": Style(**kw), "other": Style(bold=True)}
     theme = Theme(styles, inherit=False)
     back = Theme.from_file(io.StringIO(theme.config), inherit=False)
-    return back.styles == theme.styles
+    if back.styles != theme.styles:
+        return False
+    # a second, different theme read in the same process: nothing of the first one may appear in it
+    theme2 = Theme({"third.name": Style(**kw) if kw else Style(italic=True)}, inherit=False)
+    back2 = Theme.from_file(io.StringIO(theme2.config), inherit=False)
+    return back2.styles == theme2.styles and Theme.from_file(io.StringIO(theme.config), inherit=False).styles == theme.styles
 
 
 def _pre_cfg(i: int, vi: bool, c: int, b: int, link: bool) -> bool:
@@ -215,7 +226,8 @@ def _pre_cfg(i: int, vi: bool, c: int, b: int, link: bool) -> bool:
 
 @xh("C20-config-roundtrip", pre=_pre_cfg, timeout=900, kind="P", functions=["rich/theme.py:Theme.config", "rich/theme.py:Theme.from_file"],
     bounds="themes whose style has at most one attribute (on/off), colour and bgcolor from 5 spellings, optional link without '%' "
-           "(solver-enumerated, executed natively): Theme.from_file(Theme.config) has equal styles",
+           "(solver-enumerated, executed natively): Theme.from_file(Theme.config) has equal styles; then a second theme "
+           "with a different name set is round-tripped in the same process, and the first once more (reads are independent)",
     outside="links containing '%' (configparser interpolation), names outside [a-z.]")
 def c20_cfg(i: int, vi: bool, c: int, b: int, link: bool) -> bool:
     return native(_cfg_ok, pin(i, 0, 13), pinb(vi), pin(c, 0, len(_COLS) - 1), pin(b, 0, len(_COLS) - 1), pinb(link))
